@@ -1097,7 +1097,10 @@ class CertificateEntry(object):
         if self.certificateType == CertificateType.x509:
             certBytes = parser.getVarBytes(3)
             x509 = X509()
-            x509.parseBinary(certBytes)
+            try:
+                x509.parseBinary(certBytes)
+            except SyntaxError:
+                raise BadCertificateError("Certificate could not be parsed")
             self.certificate = x509
         else:
             raise ValueError("Set certificate type ({0}) unsupported"
